@@ -21,7 +21,7 @@ ID = "C05"
 LEVEL = "model_checking"
 RULE = (
     "scenarios = caller sets (2 or 3 callers x 1-2 requests, plus four- and five-caller sets, optional tester-present worker, optional reconnect caller) "
-    "x start order permutations x per-caller reply scripts {R immediate, PR pending-then-reply, - silence, C connection error, "
+    "x start order permutations x per-caller reply scripts {R immediate, PR pending-then-reply, - silence, C connection error, B busyRepeatRequest (per transmission: B|R, B|B|R), N negative, "
     "PPR} x max_retry {0,1}; for each scenario every schedule with <= bound deviations (reply delivered while tasks runnable, "
     "timer before a deliverable reply, timer and reply in the same iteration, cancel of one caller at any iteration boundary). "
     "states = distinct canonical (task-tagged transport log, per-call results) observations; transitions = environment actions fired"
@@ -126,6 +126,10 @@ class State:
                     self.out.append(bytes([0x62]) + data[1:3] + bytes([did & 0xFF]))
                 elif ch == "P":
                     self.out.append(bytes([0x7F, 0x22, 0x78]))
+                elif ch == "B":
+                    self.out.append(bytes([0x7F, 0x22, 0x21]))
+                elif ch == "N":
+                    self.out.append(bytes([0x7F, 0x22, 0x31]))
                 elif ch == "C":
                     self.out.append(CONN)
                 elif ch == "-":
@@ -430,6 +434,13 @@ def items(tier: str, seed: int) -> list[Any]:
             callers = (("A", (0x1001, sa)), ("B", (0x2002, sb)))
             for worker in (False, True):
                 out.append(((callers, (0, 1), worker, False, 1, True), bound, cap))
+    # busyRepeatRequest: the back-off sleep before the repetition lies inside the exchange (retry left), or the busy reply is final
+    for sa in ("B|R", "B|PR", "B|B|R", "B", "N"):
+        for sb in ("R", "PR", "B|R"):
+            callers = (("A", (0x1001, sa)), ("B", (0x2002, sb)))
+            for worker in (False, True):
+                for order in ((0, 1), (1, 0)):
+                    out.append(((callers, order, worker, False, 2 if sa == "B|B|R" else 1, True), bound, cap))
     # four and five callers (bound 1; thorough: more script mixes and bound 2 on the four-caller case)
     many = [("R", "PR", "-", "R"), ("PR", "R", "R", "C")] if quick else [("R", "PR", "-", "R"), ("PR", "R", "R", "C"), ("-", "-", "R", "PR"), ("R", "R", "R", "R")]
     for sc in many:
